@@ -52,6 +52,8 @@ public:
     Lines += '\n';
   }
   std::vector<std::string> Types;
+  std::vector<long> TypeSz;  // size in bytes of complete object types, -1 otherwise
+  std::vector<int> TypePt;   // pointee / referee / element type id, -1 otherwise
   std::map<std::string, int> TypeIdx;
   std::set<const Decl*> SeenFn;
   std::set<const Decl*> SeenRec;
@@ -75,7 +77,22 @@ public:
       return it->second;
     int id = (int)Types.size();
     Types.push_back(s);
+    TypeSz.push_back(-1);
+    TypePt.push_back(-1);
     TypeIdx[s] = id;
+    QualType C = T.getCanonicalType();
+    if (!C->isDependentType() && !C->isIncompleteType() && !C->isFunctionType() && !C->isVoidType() &&
+        !C->isReferenceType() && !C->isUndeducedType() && !C->isPlaceholderType())
+      TypeSz[id] = (long)Ctx.getTypeSizeInChars(C).getQuantity();
+    QualType P;
+    if (C->isPointerType() || C->isReferenceType())
+      P = C->getPointeeType();
+    else if (const auto* AT = dyn_cast<ArrayType>(C.getTypePtr()))
+      P = AT->getElementType();
+    if (!P.isNull()) {
+      int pid    = typeId(P);
+      TypePt[id] = pid;
+    }
     return id;
   }
 
@@ -1046,6 +1063,13 @@ public:
     for (auto& t : Ex.Types)
       types.push_back(t);
     head["types"] = std::move(types);
+    json::Array tsz, tpt;
+    for (auto v : Ex.TypeSz)
+      tsz.push_back((int64_t)v);
+    for (auto v : Ex.TypePt)
+      tpt.push_back(v);
+    head["tsz"] = std::move(tsz);
+    head["tpt"] = std::move(tpt);
     json::Array deps;
     std::set<std::string> depset;
     for (auto it = SM.fileinfo_begin(); it != SM.fileinfo_end(); ++it) {
